@@ -19,6 +19,10 @@ RULES = {
         (r'for \(const Txid& hash : vHashesToUpdate \| std::views::reverse\)',
          'for (const Txid& hash : verif_ranges::reversed(vHashesToUpdate))'),
     ],
+    'private_broadcast.cpp': [
+        (r'auto pending_transactions\{m_transactions \| std::views::filter\(\[this\]\(const auto& entry\) \{ return IsPending\(entry\.second\); \}\)\};',
+         'auto pending_transactions{verif_ranges::filtered(m_transactions, [this](const auto& entry) { return IsPending(entry.second); })};'),
+    ],
     'util/btcsignals.h': [
         (r'using result_type = Combiner::result_type;', 'using result_type = typename Combiner::result_type;'),
     ],
